@@ -23,7 +23,7 @@ func registerC04() {
 			"every 29th position, thorough = all 2^15 patterns at every position; Decode and CheckIntegrity must both return an error. Family headers: header sizes x protocol " +
 			"versions x profile versions x stored CRC {correct, 0, each single-bit error, PRNG} and every single-byte corruption of bytes 1-3, 8-13 of a correct 14-byte header, " +
 			"each inside an otherwise valid file with recomputed file CRC: CheckIntegrity(headerOnly), DecodeHeader, Decode and Header.CheckIntegrity must all agree with the " +
-			"reference verdict. Family accepted: streams Decode accepts (model, device, Encode output, and model streams padded to data sizes at and around multiples of the 4096-byte read buffer) must pass CheckIntegrity. A case is one corrupted file; distinct by construction",
+			"reference verdict. Family large-bursts: model streams of 5-120 KB and the device files up to 400 KB, each corrupted at 400 (quick) / 3000 (thorough) PRNG bit positions (concentrated around the decoder's 4096-byte buffer boundaries, record boundaries and the trailing CRC) with PRNG burst patterns of span <= 16. Family accepted: streams Decode accepts (model, device, Encode output, and model streams padded to data sizes at and around multiples of the 4096-byte read buffer) must pass CheckIntegrity. A case is one corrupted file; distinct by construction",
 		Assume:        []string{"'contiguous bits' are contiguous in the order the reflected CRC consumes them (LSB first); any error counts as detection"},
 		MinNontrivial: 20000,
 		Families: []lib.Family{
@@ -31,6 +31,7 @@ func registerC04() {
 			{Name: "headers", N: func(t string) uint64 { return 2 * 5 * 64 }, Run: c04Headers},
 			{Name: "header-bytes", N: func(t string) uint64 { return 9 }, Run: c04HeaderBytes},
 			{Name: "accepted", N: func(t string) uint64 { return tierN(t, 3000, 200000) }, Run: c04Accepted},
+			{Name: "large-bursts", N: func(t string) uint64 { return tierN(t, 60, 2000) }, Run: c04LargeBursts},
 		},
 		Exhaustive: func(t string) bool { return t == "thorough" },
 	})
@@ -390,4 +391,107 @@ func c04Accepted(c *lib.Ctx, idx uint64) {
 	}
 	c.Count("accepted_streams_passing_integrity", 1)
 	c.Nontrivial(b)
+}
+
+// c04LargeBursts: sampled bursts on larger files (the exhaustive enumeration is confined to small ones).
+func c04LargeBursts(c *lib.Ctx, idx uint64) {
+	rng := lib.NewRand("C04.large-bursts", idx)
+	var orig []byte
+	label := ""
+	files := Corpus()
+	if idx%3 == 0 {
+		cf := files[int(idx/3)%len(files)]
+		if len(cf.Data) > 400000 {
+			return
+		}
+		pp, perr := ref.Parse(cf.Data, ref.ParseOptions{})
+		if perr != nil {
+			return
+		}
+		// only the first frame: a chained file's later frames are not read by Decode / CheckIntegrity
+		orig, label = cf.Data[:pp.FrameLen], cf.Path
+	} else {
+		o := c02Opts(rng, idx)
+		o.Records = 150 + rng.Intn(3000)
+		o.Compressed = 15
+		o.NoTimeZero = true
+		p := lib.NewPlanGen(rng, o).Fill()
+		orig, label = p.Bytes(), fmt.Sprintf("model stream of %d records", len(p.Records))
+	}
+	d, i, pn := detect(orig)
+	if pn != "" {
+		c.Violation(orig, "%s: panic: %s", label, pn)
+		return
+	}
+	if d != nil {
+		return // not a usable base (acceptance is C02's subject)
+	}
+	if i != nil {
+		c.Violation(orig, "Decode accepts %s but CheckIntegrity rejects it: %v", label, i)
+		return
+	}
+	nbits := len(orig) * 8
+	hs := int(orig[0])
+	npos := int(tierN(c.Tier, 400, 3000))
+	buf := make([]byte, len(orig))
+	n := int64(0)
+	for k := 0; k < npos; k++ {
+		var p int
+		switch rng.Intn(4) {
+		case 0: // around a buffer boundary of the decoder (data offsets that are multiples of 4096)
+			b := hs + 4096*(1+rng.Intn(1+len(orig)/4096))
+			p = (b-8+rng.Intn(16))*8 + rng.Intn(8)
+		case 1: // the tail: last record and CRC
+			p = nbits - 1 - rng.Intn(minInt(nbits-1, 400))
+		default:
+			p = rng.Intn(nbits)
+		}
+		if p < 0 || p >= nbits {
+			continue
+		}
+		mask := uint32(rng.U64())&0xFFFF | 1
+		if rng.Chance(1, 3) {
+			mask = 1 | 1<<uint(rng.Intn(16))
+		}
+		span := 0
+		for b := 15; b >= 0; b-- {
+			if mask>>uint(b)&1 != 0 {
+				span = b + 1
+				break
+			}
+		}
+		if p+span > nbits {
+			continue
+		}
+		bad := false
+		for b := 0; b < span; b++ {
+			by := (p + b) / 8
+			if by == 0 || by >= 4 && by <= 7 {
+				bad = true
+			}
+		}
+		if bad {
+			continue
+		}
+		copy(buf, orig)
+		for b := 0; b < span; b++ {
+			if mask>>uint(b)&1 != 0 {
+				buf[(p+b)/8] ^= 1 << uint((p+b)%8)
+			}
+		}
+		de, ie, pn := detect(buf)
+		n++
+		if pn != "" {
+			c.Violation(buf, "corrupted %s (burst %#x at bit %d): panic: %s", label, mask, p, pn)
+			return
+		}
+		if de == nil || ie == nil {
+			c.Violation(buf, "corruption of %s (%d bytes) not detected: XOR pattern %#06x (span %d) at bit %d (byte %d): Decode error %v, CheckIntegrity error %v", label, len(orig), mask, span, p, p/8, de, ie)
+			return
+		}
+	}
+	c.EvalN(2 * n)
+	c.NontrivialN(n)
+	c.Count("large_files_corrupted", 1)
+	c.Count("large_file_bytes", int64(len(orig)))
 }
